@@ -26,7 +26,7 @@ if not os.path.exists("harness/Cargo.lock"):
     import shutil; shutil.copy("/repo/Cargo.lock", "harness/Cargo.lock")
 bins = [p.lower() for p in props if os.path.exists("harness/src/bin/%s.rs" % p.lower())]
 for b in bins:
-    feats = ("verif_hooks",) if b in ("c12",) else ()
+    feats = ("verif_hooks",) if "verif_hooks" in open("harness/src/bin/%s.rs" % b).read() else ()
     try:
         vlib.harness_build([b], features=feats)
     except vlib.BrokenTie as e:
